@@ -30,9 +30,9 @@ Local Open Scope N_scope.
    otherwise. *)
 Theorem C17_get_latest :
   forall h bs, wf h -> compile h = Ok bs ->
-  forall hist i n, Forall (op_clear h) hist -> clear h i n ->
-    snd (fst (step current (iface_names h) bs (run current (iface_names h) bs hist) (OGet i n)))
-    = s_get present h hist i n.
+  forall hist c i n, Forall (op_clear h) hist -> clear h i n ->
+    snd (fst (step current (iface_names h) bs (run current (iface_names h) bs hist) (OGet c i n)))
+    = s_get present h hist c i n.
 Proof. exact c17_get_latest. Qed.
 
 (* ... as a variant of exactly the declared type when that type is basic: a
@@ -71,19 +71,19 @@ Theorem C17_access_matrix :
     let out := step current (iface_names h) bs st o in
     (forall i n,
         read_val current (fst (fst out)) (i, n)
-        = match write_of h (exported hist) o with
+        = match write_of h (exported_on hist (arrives o)) o with
           | Some (d, v) => if str_eqb (dc_iface d) i && str_eqb (dc_name d) n then v
                            else read_val current st (i, n)
           | None => read_val current st (i, n)
           end) /\
-    (forall i n v, o = OSet i n v -> write_of h (exported hist) o = None ->
-                   snd (fst out) = RErr /\ snd out = []) /\
-    (forall i n v d, o = OSet i n v -> write_of h (exported hist) o = Some (d, v) ->
-                     snd (fst out) = if notifies (dc_prop d) && negb (is_ok (present (p_sig (dc_prop d)) v))
-                                     then RErr else ROk) /\
-    (forall i n, o = OGet i n ->
-                 match named h i n with Some d => readable (dc_prop d) = false | None => True end ->
-                 snd (fst out) = RErr).
+    (forall c i n v, o = OSet c i n v -> write_of h (exported_on hist c) o = None ->
+                     snd (fst out) = RErr /\ snd out = []) /\
+    (forall c i n v d, o = OSet c i n v -> write_of h (exported_on hist c) o = Some (d, v) ->
+                       snd (fst out) = if notifies (dc_prop d) && negb (is_ok (present (p_sig (dc_prop d)) v))
+                                       then RErr else ROk) /\
+    (forall c i n, o = OGet c i n ->
+                   match named h i n with Some d => readable (dc_prop d) = false | None => True end ->
+                   snd (fst out) = RErr).
 Proof. exact c17_access_matrix. Qed.
 
 (* GetAll i on an exported object, as a finite map: the entry of name n is
@@ -92,8 +92,8 @@ Proof. exact c17_access_matrix. Qed.
    reply exactly when one of those values cannot be presented. *)
 Theorem C17_getall_exact :
   forall h bs, wf h -> compile h = Ok bs ->
-  forall hist i, Forall (op_clear h) hist -> nonempty i = true -> exported hist = true ->
-    match snd (fst (step current (iface_names h) bs (run current (iface_names h) bs hist) (OGetAll i))) with
+  forall hist c i, Forall (op_clear h) hist -> nonempty i = true -> exported_on hist c = true ->
+    match snd (fst (step current (iface_names h) bs (run current (iface_names h) bs hist) (OGetAll c i))) with
     | RDict d =>
         (forall n, alist_get str_eqb n d
                    = match s_entry present h hist i n with Some (Ok x) => Some x | _ => None end) /\
@@ -103,18 +103,37 @@ Theorem C17_getall_exact :
     end.
 Proof. exact c17_getall_exact. Qed.
 
-(* PropertiesChanged: the signals of this kind emitted by any operation are
-   exactly `s_changed`: one signal naming interface, property and new value
-   when the operation assigns (locally or by an accepted Set) a property
-   declared with emitsOnChange=True on an exported object, none in every other
-   case (not exported, emitsOnChange False or 'invalidates', refused Set, Get,
-   GetAll, export). *)
+(* PropertiesChanged, over histories that export and unexport the object on any
+   number of connections: the signals of this kind emitted by any operation are
+   exactly `s_changed`: one signal naming interface, property and new value,
+   sent on the connection of the MOST RECENT export, when the operation assigns
+   (locally or by a Set accepted on whichever connection it arrived) a property
+   declared with emitsOnChange=True; none in every other case (never exported,
+   emitsOnChange False or 'invalidates', refused Set, Get, GetAll, export,
+   unexport).  unexportObject does not detach the object: it keeps announcing
+   on its latest connection. *)
 Theorem C17_changed_signal :
   forall h bs, wf h -> compile h = Ok bs ->
   forall hist o, Forall (op_clear h) hist -> op_clear h o ->
     filter is_changed (snd (step current (iface_names h) bs (run current (iface_names h) bs hist) o))
     = s_changed present h hist o.
 Proof. exact c17_changed_signal. Qed.
+
+(* What the STATEMENT demands, with connections (Spec/PropsSpec.v
+   changed_demanded): the text asks for one signal and names no connection.
+   While the object is exported on the connection of its latest export the
+   signal must be exactly that one, there (an object exported on two
+   connections at once announces on the later one only: the code's choice,
+   taken as given); while it is exported only elsewhere the count and content
+   are demanded, the connection is not; once it is exported nowhere either
+   silence or the announcement is accepted.  The model meets the demand for
+   every history and every set of connections considered. *)
+Theorem C17_changed_signal_handlers :
+  forall h bs, wf h -> compile h = Ok bs ->
+  forall conns hist o, Forall (op_clear h) hist -> op_clear h o ->
+    changed_demanded present h conns hist o
+      (filter is_changed (snd (step current (iface_names h) bs (run current (iface_names h) bs hist) o))).
+Proof. exact c17_changed_signal_handlers. Qed.
 
 (* --- non-vacuity: a hierarchy with inheritance, one interface whose properties
    are bound on base AND subclass, the same property name on two interfaces ---- *)
@@ -128,20 +147,20 @@ Definition ex_h : hier :=
         [mkD [98] [66] None; mkD [119] [87] None; mkD [99] [65] (Some iB); mkD [118] [86] None] ].
 Definition ex_hist : list op :=
   [OAssign [97] (PStr [120]); OAssign [98] (PInt 1); OAssign [99] (PStr [121]); OAssign [119] (PInt 5);
-   OAssign [118] (PInt 2); OExport; OSet iA [66] (PInt 3000000000); OSet iB [65] (PStr [122]); OSet [] [87] (PInt 6)].
+   OAssign [118] (PInt 2); OExport 1; OSet 1 iA [66] (PInt 3000000000); OSet 1 iB [65] (PStr [122]); OSet 1 [] [87] (PInt 6)].
 
 Example C17_nonvacuous :
   wf ex_h /\ Forall (op_clear ex_h) ex_hist /\
   exists bs, compile ex_h = Ok bs /\
     let st := run current (iface_names ex_h) bs ex_hist in
     let reply o := snd (fst (step current (iface_names ex_h) bs st o)) in
-    reply (OGet iA [66]) = RVal [117] (PInt 3000000000) /\
-    reply (OGet iA [65]) = RVal [115] (PStr [120]) /\
-    reply (OGet iB [65]) = RVal [115] (PStr [121]) /\                     (* the refused Set left it alone *)
-    reply (OGet iA [87]) = RErr /\ reply (OGet iA [90]) = RErr /\ reply (OGet [97; 46; 67] [65]) = RErr /\
-    reply (OGetAll iA) = RDict [([65], ([115], PStr [120])); ([66], ([117], PInt 3000000000)); ([86], ([105], PInt 2))] /\
+    reply (OGet 1 iA [66]) = RVal [117] (PInt 3000000000) /\
+    reply (OGet 1 iA [65]) = RVal [115] (PStr [120]) /\
+    reply (OGet 1 iB [65]) = RVal [115] (PStr [121]) /\                     (* the refused Set left it alone *)
+    reply (OGet 1 iA [87]) = RErr /\ reply (OGet 1 iA [90]) = RErr /\ reply (OGet 1 [97; 46; 67] [65]) = RErr /\
+    reply (OGetAll 1 iA) = RDict [([65], ([115], PStr [120])); ([66], ([117], PInt 3000000000)); ([86], ([105], PInt 2))] /\
     snd (step current (iface_names ex_h) bs st (OAssign [98] (PInt 4000000000)))
-      = [SigChanged iA [66] [117] (PInt 4000000000)] /\
+      = [SigChanged 1 iA [66] [117] (PInt 4000000000)] /\
     snd (step current (iface_names ex_h) bs st (OAssign [118] (PInt 9))) = [] /\
     snd (step current (iface_names ex_h) bs st (OAssign [99] (PStr [122]))) = [].
 Proof.
@@ -157,19 +176,43 @@ Example C17_typed_nonvacuous :
   present [98] (PBool true) = Ok ([98], PBool true).
 Proof. vm_compute. repeat split; reflexivity. Qed.
 
+(* two connections: moved from 1 to 2 (export on 2, then unexport from 1) the object
+   announces on 2, answers on 2 only; observations outside the statement: after
+   export 1, export 2, unexport 2 it is exported on 1 but announces on 2; after
+   unexporting from its only connection it keeps announcing there *)
+Example C17_handlers_nonvacuous :
+  exists bs, compile ex_h = Ok bs /\
+    let ins := iface_names ex_h in
+    let pre := [OAssign [98] (PInt 1); OExport 1] in
+    let moved := pre ++ [OExport 2; OUnexport 1] in
+    let back := pre ++ [OExport 2; OUnexport 2] in
+    let gone := pre ++ [OUnexport 1] in
+    let o := OAssign [98] (PInt 7) in
+    exported_on moved 2 = true /\ exported_on moved 1 = false /\ handler_of moved = Some 2%nat /\
+    snd (step current ins bs (run current ins bs moved) o) = [SigChanged 2 iA [66] [117] (PInt 7)] /\
+    snd (fst (step current ins bs (run current ins bs moved) (OGet 2 iA [66]))) = RVal [117] (PInt 1) /\
+    snd (fst (step current ins bs (run current ins bs moved) (OGet 1 iA [66]))) = RErr /\
+    snd (step current ins bs (run current ins bs moved) (OSet 2 iA [66] (PInt 9))) = [SigChanged 2 iA [66] [117] (PInt 9)] /\
+    exported_on back 1 = true /\ exported_on back 2 = false /\
+    snd (step current ins bs (run current ins bs back) o) = [SigChanged 2 iA [66] [117] (PInt 7)] /\
+    exported_on gone 1 = false /\
+    snd (step current ins bs (run current ins bs gone) o) = [SigChanged 1 iA [66] [117] (PInt 7)] /\
+    step current ins bs (run current ins bs gone) (OUnexport 1) = (run current ins bs gone, RRaise, []).
+Proof. eexists. split; [vm_compute; reflexivity|]. vm_compute. repeat split; reflexivity. Qed.
+
 (* --- the code before the repairs --------------------------------------------------- *)
 
 (* D15: getAllProperties stopped at the first class of the MRO mentioning the
    interface - B, bound on the base class, is missing although specified. *)
 Theorem C17_getall_exact_legacy_refuted :
   exists h bs hist i n x,
-    wf h /\ compile h = Ok bs /\ Forall (op_clear h) hist /\ exported hist = true /\
+    wf h /\ compile h = Ok bs /\ Forall (op_clear h) hist /\ exported_on hist 1 = true /\
     s_entry present h hist i n = Some (Ok x) /\
     exists d, snd (fst (step (mkCfg true false false false) (iface_names h) bs
-                             (run (mkCfg true false false false) (iface_names h) bs hist) (OGetAll i))) = RDict d /\
+                             (run (mkCfg true false false false) (iface_names h) bs hist) (OGetAll 1 i))) = RDict d /\
               alist_get str_eqb n d = None.
 Proof.
-  exists ex_h. eexists. exists [OAssign [97] (PStr [120]); OAssign [98] (PInt 1); OAssign [118] (PInt 2); OExport], iA, [66]. eexists.
+  exists ex_h. eexists. exists [OAssign [97] (PStr [120]); OAssign [98] (PInt 1); OAssign [118] (PInt 2); OExport 1], iA, [66]. eexists.
   split; [apply wf_b_sound; vm_compute; reflexivity|].
   split; [vm_compute; reflexivity|].
   split; [repeat (apply Forall_cons; [first [exact I | apply clear_b_sound; vm_compute; reflexivity]|]); apply Forall_nil|]. split; [reflexivity|].
@@ -185,10 +228,10 @@ Theorem C17_get_latest_legacy_refuted :
   exists h bs hist i n,
     wf h /\ compile h = Ok bs /\ Forall (op_clear h) hist /\ clear h i n /\
     snd (fst (step (mkCfg false true false false) (iface_names h) bs
-                   (run (mkCfg false true false false) (iface_names h) bs hist) (OGet i n)))
-    <> s_get present h hist i n.
+                   (run (mkCfg false true false false) (iface_names h) bs hist) (OGet 1 i n)))
+    <> s_get present h hist 1 i n.
 Proof.
-  exists k_h. eexists. exists [OAssign [112] (PStr [111; 110; 101]); OAssign [113] (PStr [116; 119; 111]); OExport], [120; 46; 121], [122; 80].
+  exists k_h. eexists. exists [OAssign [112] (PStr [111; 110; 101]); OAssign [113] (PStr [116; 119; 111]); OExport 1], [120; 46; 121], [122; 80].
   split; [apply wf_b_sound; vm_compute; reflexivity|].
   split; [vm_compute; reflexivity|].
   split; [repeat (apply Forall_cons; [first [exact I | apply clear_b_sound; vm_compute; reflexivity]|]); apply Forall_nil|]. split; [left; reflexivity|].
@@ -201,12 +244,12 @@ Qed.
 Theorem C17_changed_signal_legacy_refuted :
   exists h bs hist o,
     wf h /\ compile h = Ok bs /\ Forall (op_clear h) hist /\ op_clear h o /\
-    s_changed present h hist o = [SigChanged iA [66] [117] (PInt 3000000000)] /\
+    s_changed present h hist o = [SigChanged 1 iA [66] [117] (PInt 3000000000)] /\
     step (mkCfg false false true false) (iface_names h) bs
          (run (mkCfg false false true false) (iface_names h) bs hist) o
-    = (mkS [((iA, [66]), PInt 3000000000)] true 2, RRaise, []).
+    = (mkS [((iA, [66]), PInt 3000000000)] [1%nat] (Some 1%nat) 2, RRaise, []).
 Proof.
-  exists ex_h. eexists. exists [OAssign [98] (PInt 1); OExport], (OAssign [98] (PInt 3000000000)).
+  exists ex_h. eexists. exists [OAssign [98] (PInt 1); OExport 1], (OAssign [98] (PInt 3000000000)).
   split; [apply wf_b_sound; vm_compute; reflexivity|].
   split; [vm_compute; reflexivity|].
   split; [repeat (apply Forall_cons; [first [exact I | apply clear_b_sound; vm_compute; reflexivity]|]); apply Forall_nil|]. split; [exact I|].
@@ -224,13 +267,13 @@ Definition z_h : hier :=
 Theorem C17_assign_legacy_refuted :
   exists h bs hist i n,
     wf h /\ compile h = Ok bs /\ Forall (op_clear h) hist /\ clear h i n /\
-    s_get present h hist i n = RVal [115] (PStr [116; 119; 111]) /\
+    s_get present h hist 1 i n = RVal [115] (PStr [116; 119; 111]) /\
     snd (fst (step (mkCfg false false false true) (iface_names h) bs init (OAssign [113] (PStr [116; 119; 111])))) = RRaise /\
     snd (fst (step (mkCfg false false false true) (iface_names h) bs
-                   (run (mkCfg false false false true) (iface_names h) bs hist) (OGet i n))) = RErr /\
+                   (run (mkCfg false false false true) (iface_names h) bs hist) (OGet 1 i n))) = RErr /\
     snd (fst (step current (iface_names h) bs init (OAssign [113] (PStr [116; 119; 111])))) = RNone.
 Proof.
-  exists z_h. eexists. exists [OAssign [113] (PStr [116; 119; 111]); OExport], iA, [80].
+  exists z_h. eexists. exists [OAssign [113] (PStr [116; 119; 111]); OExport 1], iA, [80].
   split; [apply wf_b_sound; vm_compute; reflexivity|].
   split; [vm_compute; reflexivity|].
   split; [repeat (apply Forall_cons; [first [exact I | apply clear_b_sound; vm_compute; reflexivity]|]); apply Forall_nil|]. split; [left; reflexivity|].
@@ -247,10 +290,10 @@ Definition f_h : hier :=
 Theorem C17_set_wrong_type_finding :
   exists bs, wf f_h /\ compile f_h = Ok bs /\
     let ins := iface_names f_h in
-    let st := run current ins bs [OAssign [110] (PInt 1); OAssign [98] (PInt 1); OExport] in
-    let '(st1, r1, _) := step current ins bs st (OSet iA [78] (PStr [97; 98; 99])) in
-    let '(st2, r2, _) := step current ins bs st (OSet iA [66] (PStr [97; 98; 99])) in
-    r1 = ROk /\ snd (fst (step current ins bs st1 (OGet iA [78]))) = RErr /\
+    let st := run current ins bs [OAssign [110] (PInt 1); OAssign [98] (PInt 1); OExport 1] in
+    let '(st1, r1, _) := step current ins bs st (OSet 1 iA [78] (PStr [97; 98; 99])) in
+    let '(st2, r2, _) := step current ins bs st (OSet 1 iA [66] (PStr [97; 98; 99])) in
+    r1 = ROk /\ snd (fst (step current ins bs st1 (OGet 1 iA [78]))) = RErr /\
     r2 = RErr /\ read_val current st2 (iA, [66]) = PStr [97; 98; 99].
 Proof.
   eexists. split; [apply wf_b_sound; vm_compute; reflexivity|].
